@@ -352,6 +352,7 @@ func genPgpDates(tier string, r *rng) {
 
 func genC12(tier string, r *rng) {
 	genPgpDates(tier, r)
+	genPgpSig(tier, r.fork()) // tie of Model/PgpSig.lean (Signature.parse and its subpackets) to the copied reader
 	// keys that carry certifications by other people's keys, and unprotected secret-key blocks (incl. ECDH subkeys)
 	{
 		fs := pgpKeyFactories()
